@@ -101,7 +101,14 @@ fn main() {
                     .find_map(|l| l.strip_prefix("kind ").map(|s| s.trim().to_string()))
                     .unwrap_or_else(|| args.get(3).cloned().unwrap_or("map-drop".into()));
                 let body: Vec<String> = lines.into_iter().filter(|l| !l.starts_with("kind ")).collect();
-                out.push_str(&format!("SCRIPT {} {}\n", name, kind));
+                // the SCRIPT line goes out (flushed) before the script runs, and each script's trace as soon
+                // as it is complete: if the process dies, the script it died in is known and the traces of
+                // the scripts before it are not lost
+                {
+                    use std::io::Write as _;
+                    print!("SCRIPT {} {}\n", name, kind);
+                    let _ = std::io::stdout().flush();
+                }
                 match kind.as_str() {
                     "map-drop" => mapdrv::run_map::<Kd, Vd>(&body, &mut out),
                     "map-plain" => mapdrv::run_map::<Kp, Vp>(&body, &mut out),
@@ -114,10 +121,16 @@ fn main() {
                     "table-1" => tabledrv::run_table::<tabledrv::T1>(&body, &mut out),
                     "table-2" => tabledrv::run_table::<tabledrv::T2>(&body, &mut out),
                     "table-zst" => tabledrv::run_table::<tabledrv::Tz>(&body, &mut out),
+                    "table-zst64" => tabledrv::run_table::<tabledrv::Tz64>(&body, &mut out),
                     k => panic!("unknown kind {}", k),
                 }
+                {
+                    use std::io::Write as _;
+                    print!("{}", out);
+                    let _ = std::io::stdout().flush();
+                    out.clear();
+                }
             }
-            print!("{}", out);
         }
         _ => std::process::exit(2),
     }
